@@ -94,6 +94,7 @@ class Interp:
         self.config = config or {}
         self.aliases = []
         self.lambdas = {}
+        self.closures = {}
         self.opaque = None     # predicate(Func) -> keep the call opaque instead of inlining
         self.modconst = {}
         self.frames = {}
@@ -378,6 +379,8 @@ class Interp:
             return ('fstr', tuple(parts))
         if isinstance(n, ast.Call):
             return self.call(n, fr)
+        if isinstance(n, ast.Set):
+            return ('list', tuple(self.ex(e, fr) for e in n.elts))      # used for membership tests only
         if isinstance(n, ast.Lambda):
             lid = next(self.ids)
             self.lambdas[lid] = (n, dict(fr.env), fr.func, fr.cls)
@@ -435,9 +438,16 @@ class Interp:
 
     def _call(self, n, fr):
         f = n.func
-        args = [self.ex(a, fr) for a in n.args if not isinstance(a, ast.Starred)]
-        if any(isinstance(a, ast.Starred) for a in n.args):
-            raise Unknown('starred call')
+        args = []
+        for a in n.args:
+            if isinstance(a, ast.Starred):
+                sv = self.ex(a.value, fr)
+                if sv[0] in ('tuple', 'list'):
+                    args += list(sv[1])
+                else:
+                    raise Unknown('starred call with a non-literal sequence')
+            else:
+                args.append(self.ex(a, fr))
         kw = [(k.arg, self.ex(k.value, fr)) for k in n.keywords]
         # method on an object
         if isinstance(f, ast.Attribute):
@@ -455,6 +465,9 @@ class Interp:
             return CALL(A(recv, meth), args, kw)
         if isinstance(f, (ast.Name, ast.Subscript, ast.Call)) and not (isinstance(f, ast.Name) and f.id not in fr.env):
             fv = self.ex(f, fr)
+            if fv[0] == 'closure':
+                cf, cfr = self.closures[fv[1]]
+                return self.inline(cf, None, args, kw, fr, n, base_env=cfr.env, cls=cfr.cls)
             if fv[0] == 'lambda':
                 node, env0, lfunc, lcls = self.lambdas[fv[1]]
                 env2 = dict(env0)
@@ -549,8 +562,8 @@ class Interp:
             self.inline(init, obj, args, kw, fr, n)
         return obj
 
-    def inline(self, target, recv, args, kw, fr, n):
-        if self.opaque is not None and self.opaque(target):
+    def inline(self, target, recv, args, kw, fr, n, base_env=None, cls=None):
+        if base_env is None and self.opaque is not None and self.opaque(target):
             rv = CALL(A(recv if recv is not None else S('<module>'), target.name), args, kw)
             self.emit(Eff('callo', fr.func, n, target=target, args=tuple(args), ret=rv))
             return rv
@@ -558,7 +571,7 @@ class Interp:
             self.unknown.append(('inline-bound', target.where, '%s:%d' % (fr.func.relpath, n.lineno)))
             return TOP('inline-bound ' + target.qualname)
         params = target.params
-        env = {}
+        env = dict(base_env) if base_env is not None else {}
         if target.cls and not target.is_static and params and (params[0] == 'self' or target.is_classmethod):
             env[params[0]] = recv if recv is not None else S('self')
             params = params[1:]
@@ -579,8 +592,10 @@ class Interp:
         for k, v in kw:
             env[k] = v
         fr2 = Frame(target, env)
+        if cls is not None:
+            fr2.cls = cls
         for p in params:
-            if p not in env:
+            if p not in env or (base_env is not None and p not in [q for q, _ in zip(params, args)] and p not in dict(kw)):
                 if p in dmap:
                     env[p] = self.ex(dmap[p], Frame(target, {}))
                 else:
@@ -640,6 +655,14 @@ class Interp:
         return name in fr.env and fr.defdepth.get(name, 0) < fr.loopdepth
 
     def stmt(self, s, fr):
+        if isinstance(s, ast.FunctionDef):
+            # nested helper: a closure over the enclosing frame (read at call time, like Python does)
+            from .loader import Func
+            cid = next(self.ids)
+            self.closures[cid] = (Func(fr.func.module, None, s, fr.func.relpath), fr)
+            fr.env[s.name] = ('closure', cid)
+            fr.defdepth[s.name] = fr.loopdepth
+            return
         if isinstance(s, ast.Expr) and isinstance(s.value, ast.Yield):
             if '__yield__' not in fr.env:
                 raise Unknown('yield outside a recognised generator')
